@@ -256,8 +256,11 @@ def run_controlled(plan, losses, script, schedule, *, agent_kind="scripted", see
         i, exact = 0, True
         while True:
             if not ctl.quiesce():
+                # a controlled thread neither reached its next synchronisation point nor finished within the watchdog (30 s for steps
+                # that take microseconds): it spins inside the code under test - no progress, reported like a deadlock
+                ctl.log({"e": "deadlock", "parked": ctl.parked(), "spinning": True})
                 ctl.abort_all()
-                raise tlc.MachineryError(ctl.machinery_error or "controller watchdog")
+                break
             en = ctl.enabled()
             if not en:
                 if ctl.all_done():
